@@ -230,13 +230,18 @@ async def run_program(part, m, backend, prog, universe):
                 elif k == 'rename':
                     n2 = norm(op[2])
                     src_nodes = {x for x in E if x == n1 or x.startswith(n1 + DELIM)} if n1 != 'INBOX' else {'INBOX'}
-                    if not src_nodes or n2 == 'INBOX' or n2 in E or any(x.startswith(n2 + DELIM) for x in E) and backend == 'dict':
+                    placeholder_dest = any(x.startswith(n2 + DELIM) for x in E) and backend == 'dict'     # dict refuses the whole subtree; accepted
+                    if not src_nodes or n2 == 'INBOX' or n2 in E or (placeholder_dest and status != 'OK'):
                         if status == 'OK' and (not src_nodes or n2 == 'INBOX' or n2 in E):
                             part.violation('monitor', f'{backend}: RENAME {op[1]!r} {op[2]!r} answered OK although '
                                            f'{"the source does not exist" if not src_nodes else "the destination exists"}', at, signature='ns-rename-accepted')
                     elif status == 'OK':
                         ok_mut = True
                         moved = {x: n2 + x[len(n1):] for x in src_nodes}
+                        clash = sorted(y for y in moved.values() if y in E and y not in moved)
+                        if clash:
+                            part.violation('monitor', f'{backend}: RENAME {op[1]!r} {op[2]!r} answered OK and replaced the existing mailbox(es) {clash} by the moved inferiors '
+                                           f'(before {[before[y] for y in clash]}, after {[after.get(y) for y in clash]})', at, signature='ns-rename-overwrite')
                         want = (E - set(moved)) | set(moved.values())
                         if n1 == 'INBOX':
                             want |= {'INBOX'}
@@ -363,6 +368,12 @@ def gen_program(r):
     # make inferiors/superiors of some names likely
     names += [names[0] + DELIM + r.choice(PARTS[:6]), r.choice(['INBOX', 'inbox', 'Inbox/x', 'INBOX/k'])]
     prog = []
+    if r.random() < 0.25:
+        # a destination that exists only as the superior of an existing mailbox, whose inferior collides with an inferior of the source:
+        # whatever RENAME answers, the existing D/c must not be replaced
+        src, dst, c = r.choice(PARTS[:4]), r.choice(['D', 'x%y', 'é']), r.choice(PARTS[:3])
+        names += [src, dst, src + DELIM + c, dst + DELIM + c]
+        prog += [['create', dst + DELIM + c], ['append', dst + DELIM + c], ['create', src + DELIM + c], ['rename', src, dst]]
     if r.random() < 0.5:
         # siblings whose names extend another name as a *string* but not as a hierarchy (foo / foobar / foo-old): a RENAME or
         # DELETE of the shorter one must leave them alone
